@@ -170,3 +170,35 @@ Qed.
    sequences is evaluated in PoolCorr.run_seq on every step of every correspondence case *)
 Lemma inv_init : inv_b st_init = true.
 Proof. reflexivity. Qed.
+
+(* ---------- fix D22: a frame that fits no pooled buffer ---------- *)
+Definition required_size (ty : N) (sb msg apx : list N) (off ovh : nat) : nat :=
+  (off + 51 + length sb + length msg + auth_of ty + length apx + ovh)%nat.
+Definition cur_len (s : st) (f : fr) : nat :=
+  match f_buf f with
+  | Some b => match lookup b (heap s) with Some bb => cap bb | None => O end
+  | None => O
+  end.
+
+Theorem init_frame_oversized_refused s f ty src dst sb msg apx nonce3 off ovh bc :
+  tier_of (required_size ty sb msg apx off ovh) = None ->
+  (cur_len s f < required_size ty sb msg apx off ovh)%nat ->
+  init_frame s f ty src dst sb msg apx nonce3 off ovh bc = Err 9.
+Proof.
+  intros Ht Hc. unfold init_frame. fold (required_size ty sb msg apx off ovh). fold (cur_len s f).
+  apply Nat.ltb_lt in Hc. rewrite Hc, Ht. reflexivity.
+Qed.
+
+(* the function as it stood panicked on exactly these inputs *)
+Theorem init_frame_pinned_oversized_panics s f ty src dst sb msg apx nonce3 off ovh bc :
+  tier_of (required_size ty sb msg apx off ovh) = None ->
+  (cur_len s f < required_size ty sb msg apx off ovh)%nat ->
+  f_buf f = None ->
+  init_frame_pinned s f ty src dst sb msg apx nonce3 off ovh bc = Panic.
+Proof.
+  intros Ht Hc Hb. unfold init_frame_pinned. fold (required_size ty sb msg apx off ovh).
+  unfold cur_len in Hc. rewrite Hb in *. apply Nat.ltb_lt in Hc. rewrite Hc. unfold get_slice. rewrite Ht. reflexivity.
+Qed.
+
+Example oversized_exists : tier_of (required_size 1 [] (repeat 0 70000) [] 12 16) = None.
+Proof. vm_compute. reflexivity. Qed.
